@@ -5,7 +5,7 @@ def _translate(ctx):
     sp = _u.spec_from_file_location("hvpart_translate", p)
     m = _u.module_from_spec(sp)
     sp.loader.exec_module(m)
-    return m.run(("color", "catalogue", "hash"))
+    return m.run(("color", "catalogue", "hash", "c17model", "c17proofs", "c17thms"))
 
 def _extra(ctx):
     """compile the same generated programs in two further, separate processes and compare the per-case hashes of
@@ -40,9 +40,23 @@ def _extra(ctx):
                  f"{len(bad)} of {len(a)} programs compile to different code/graph in two processes; first: case {caseno}", lines)]
     return [("multi-process determinism", True, f"{len(a)} programs compiled in 2 separate processes: identical code + graph JSON + mermaid/dot", None)]
 
+def _theorems():
+    """property theorems of Props/C42.lean and Props/C42Lift.lean (the latter imports the former)"""
+    import re as _re
+    here = _os.path.dirname(_os.path.dirname(_os.path.abspath(__file__)))
+    names = []
+    for f in ("C42.lean", "C42Lift.lean"):
+        src = open(_os.path.join(here, "lean", "HvPart", "HvPart", "Props", f)).read()
+        src = _re.sub(r"/-.*?-/", "", src, flags=_re.S)
+        for m in _re.finditer(r"^theorem\s+([^\s:({\[]+)", src, _re.M):
+            if not m.group(1).startswith("aux_"):
+                names.append("HvPart." + m.group(1))
+    return names
+
 SPEC = dict(
     id="C42",
-    lean_project="HvPart", props_module="HvPart.Props.C42", driver="hvdrv_part",
+    lean_project="HvPart", props_module="HvPart.Props.C42Lift", driver="hvdrv_part",
+    theorems=_theorems(),
     harness="hv_part", bin="hv_part", mode="c42",
     cases={"quick": 1500, "thorough": 30000},
     translate=_translate,
@@ -57,9 +71,14 @@ SPEC = dict(
                 "an explicit argument and the theorems show: the enemy map after the loop denotes the same sets for any two orders "
                 "(remapEnemies_order_invariant); one try_merge from states equal up to the representation of enemy sets, under any two orders, "
                 "returns the same answer and states again equal up to that representation, all other fields identical "
-                "(tryMerge_hash_order_invariant), and subgraphs()/find ignore the representation. PARTIAL: the lifting to the whole "
-                "partition_graph output is stated (PartitionOrderInvariantStatement) but not proved; as_code and the Hydro IR emission are not "
-                "modelled (their hash containers are lookup-only per the scanner) and no Hydro flows are compiled here. Tie (C): each generated "
+                "(tryMerge_hash_order_invariant), and subgraphs()/find ignore the representation; lifted to the whole partitioner "
+                "(Props/C42Lift.lean): SubgraphMerge::new establishes, and try_merge under any iteration order preserves, a symmetric+irreflexive "
+                "enemy table, and the complete outcome of the partitioner model (Ok with subgraphs, order, handoffs, delay marks, colours, "
+                "union-find / Err cycle / panic) is identical for every iteration order of the enemy HashSet "
+                "(partition_hash_order_invariant, partition_hash_order_invariant2; at the identity order the parametrised fixpoint is the model "
+                "the driver runs, partitionWithP_id). NOT MODELLED: as_code and the Hydro IR emission (their hash containers are lookup-only "
+                "per the scanner) and no Hydro flows are compiled here - for those the claim rests on the scanner and on the differential "
+                "compilation only. Tie (C): each generated "
                 "program is compiled 3x in one process through build_dfir_code (fresh RandomState per map) and in 2 further separate processes; "
                 "generated code, graph JSON, mermaid, dot and diagnostics must be identical; the compiled model (fixed order) is diffed against "
                 "the real partitioner (random hash order) on every case."),
@@ -67,5 +86,5 @@ SPEC = dict(
                 "Hydro-side determinism (hydro_lang compile/ir, trybuild naming) is covered by the scanner only."),
     trusted_base=["the syntactic site scanner", "std RandomState differs between maps/processes (so repeated compilation samples different orders)",
                   "slotmap/BTreeMap/Vec iteration is deterministic"],
-    assumptions=["EnemySym (enemy sets are symmetric), the invariant SubgraphMerge documents and debug_asserts"],
+    assumptions=["graphs reachable from DFIR surface syntax (same generator as C18/C19)"],
 )
